@@ -24,8 +24,14 @@ let hist l proj =
   let c s = List.length (List.filter (fun d -> proj d = s) l) in
   Printf.sprintf "%d,%d,%d,%d" (c SevError) (c SevWarning) (c SevInfo) (c SevIgnore)
 
-let flag_of = function At "J" -> FJson | At "V" -> FV | At "VV" -> FVV | _ -> failwith "flag"
-let yv_of = function At "N" -> YNone | At "W" -> YWarning | At "I" -> YInfo | At "O" -> YOther | _ -> failwith "yaml verbose"
+(* flags and the yaml verbose value arrive as the strings the check wrote on the command line / into .falco.yml
+   (hex); the model decodes them with the spellings regenerated from config/config.go *)
+let flag_of = function
+  | Sq h -> (match flag_of_name (bytes_of_hex h) with Some f -> f | None -> failwith "unknown flag name")
+  | At "J" -> FJson | At "V" -> FV | At "VV" -> FVV | _ -> failwith "flag"
+let yv_of = function
+  | Sq h -> yverbose_of (Some (bytes_of_hex h))
+  | At "N" -> yverbose_of None | At "W" -> YWarning | At "I" -> YInfo | At "O" -> YOther | _ -> failwith "yaml verbose"
 
 (* a severity: the letter the check computed, or the string the linter printed (decoded by the model, with
    the spellings regenerated from linter/errors.go) *)
